@@ -74,6 +74,10 @@ pub trait UtpEnvironment: Send + Sync + Unpin + 'static {
     fn now(&self) -> Instant;
     fn copy(&self) -> Self;
     fn random_u16(&self) -> u16;
+
+    /// Verification hook sink; see src/verif.rs.
+    #[cfg(librqbit_utp_verif)]
+    fn verif_event(&self, _ev: crate::verif::Event) {}
 }
 
 #[derive(Default, Clone, Copy)]
